@@ -193,6 +193,16 @@ pub fn run(arg: &str) -> String {
             let b: [u8; 32] = s.to_bytes_le();
             format!("sat={} native_valid={}", sat, Encoding(b).vartime_decompress().is_ok())
         }
+        "alias" => {
+            // clones are independent values: doubling a clone (or computing with it) must leave the original variable unchanged
+            let e = elem(parts[1], "0");
+            let p = ElementVar::new_witness(cs.clone(), || Ok(e)).unwrap();
+            let mut q = p.clone();
+            q.double_in_place().unwrap();
+            let d = q.clone() - p.clone();
+            let orig_ok = p.value().unwrap() == e; let dbl_ok = q.value().unwrap() == e + e; let diff_ok = d.value().unwrap() == e;
+            format!("orig_ok={} dbl_ok={} diff_ok={} sat={}", orig_ok, dbl_ok, diff_ok, cs.is_satisfied().unwrap())
+        }
         "select" => {
             let (a, b) = (elem(parts[1], "0"), elem(parts[2], "0"));
             let p = ElementVar::new_witness(cs.clone(), || Ok(a)).unwrap(); let q = ElementVar::new_witness(cs.clone(), || Ok(b)).unwrap();
